@@ -91,8 +91,21 @@ class Result:
                 % (rr.rc, len(self.done), self.np, rr.err[-1200:]))
 
 
+def needs_fresh(case):
+    """Cases with their own platform or a non-smpi configuration item cannot run on the engine that the default server builds
+    before forking (see drivers/mpi_interp.cpp): they go to a second server that builds everything per case (slower)."""
+    return bool(case.get("platform")) or case.get("nhosts", 1) > 128 or bool(case.get("fresh")) or \
+        any(not c.startswith("smpi/") for c in case.get("cfg", []))
+
+
 def run(case, cpu=20, wall=300):
-    rr = core.serve(DRIVER, case, cpu=cpu, wall=wall)
+    text = json.dumps(case, separators=(",", ":"))
+    if needs_fresh(case):
+        from . import build
+        srv = core.server(DRIVER + ":fresh", cmd=[build.drv(DRIVER)], env=build.runtime_env({"MPI_INTERP_FRESH": "1"}))
+    else:
+        srv = core.server(DRIVER)
+    rr = srv.request(text, cpu=cpu, wall=wall)
     if rr.wall_exceeded:
         raise core.Inconclusive()
     return Result(rr, case)
